@@ -263,6 +263,10 @@ impl Drop for Tr {
     }
 }
 
+/// zero-sized copy type (a marker without state)
+#[derive(Debug, Clone, Copy, PartialEq)]
+pub struct Tzc;
+
 /// zero-sized clone type, counted only
 #[derive(Debug)]
 pub struct Tz;
@@ -396,6 +400,29 @@ pub fn build_runtime() -> Runtime<roto::NoCtx> {
         #[clone] type Tz = Val<Tz>;
         #[copy] type Tc = Val<Tc>;
         #[copy] type T8 = Val<T8>;
+        #[copy] type Tzc = Val<Tzc>;
+
+        /// widen a narrow integer on the host side: the callee relies on the calling convention's
+        /// extension of narrow arguments (no detour through memory here, that would re-extend it)
+        fn w_i8(x: i8) -> i64 { x as i64 }
+        fn w_i16(x: i16) -> i64 { x as i64 }
+        fn w_i32(x: i32) -> i64 { x as i64 }
+        fn w_u8(x: u8) -> i64 { x as i64 }
+        fn w_u16(x: u16) -> i64 { x as i64 }
+        fn w_u32(x: u32) -> i64 { x as i64 }
+
+        fn mkzc() -> Val<Tzc> {
+            Val(Tzc)
+        }
+        /// zero-sized copy argument in front of / between other arguments
+        fn hzc2(z: Val<Tzc>, x: i32) -> i32 {
+            let _ = z;
+            x
+        }
+        fn hzc3(a: i32, z: Val<Tzc>, b: i32) -> i32 {
+            let _ = z;
+            a.wrapping_mul(31).wrapping_add(b)
+        }
 
         fn et(k: i32) -> Val<Tr> {
             log_with(|| Ev::Eff("et".into(), vec![V::i32(k)]));
